@@ -57,6 +57,8 @@ pub struct TcpReport {
     pub connected_while_paused: bool,
     pub machinery: Option<String>,
     pub reader_result: Option<String>,
+    /// virtual wall-clock time that passed during the script (ms): pauses and healthy periods
+    pub elapsed_ms: i64,
 }
 
 const STEP_TIMEOUT: Duration = Duration::from_secs(8);
@@ -186,6 +188,7 @@ pub fn run_script(opts: &[&str], script: &[Step], healthy: &[u8], expect_in_fina
     let cfg = Cfg::tcp(opts, &addr);
     let table: Table = new_table();
     shim::arm_sleep_gate();
+    shim::wall_follows_virtual_time(true);
     let mut seen = shim::sleep_requests();
 
     // the first step decides whether somebody listens when the reader starts
@@ -276,6 +279,7 @@ pub fn run_script(opts: &[&str], script: &[Step], healthy: &[u8], expect_in_fina
                         let ok = wait_until(|| expect_in_final(&snapshot(&table)));
                         let _ = ok;
                         rep.final_table = snapshot(&table);
+                        rep.elapsed_ms = shim::wall_elapsed_ms();
                         rep.alive = !handle.is_finished();
                         let extra = shim::sleep_log_of(reader, seen);
                         if !extra.is_empty() {
@@ -300,6 +304,7 @@ pub fn run_script(opts: &[&str], script: &[Step], healthy: &[u8], expect_in_fina
                 Err(_) => "panicked".into(),
             });
             shim::disarm_sleep_gate();
+            shim::wall_follows_virtual_time(false);
             return rep;
         }
         if !parked {
@@ -312,6 +317,7 @@ pub fn run_script(opts: &[&str], script: &[Step], healthy: &[u8], expect_in_fina
         rep.tables.push(snapshot(&table));
     }
     shim::disarm_sleep_gate();
+    shim::wall_follows_virtual_time(false);
     std::mem::forget(handle);
     rep
 }
